@@ -969,11 +969,23 @@ func (u *Unit) execRange(st *State, x *ast.RangeStmt) *State {
 		mods := u.discover(st, func(s *State) []*State {
 			k := u.fresh("k", "Int")
 			bindIter(s, k)
+			if ls.Index != "" {
+				s.ghost[ls.Index] = Val{T: k, Ty: intT, So: "Int"}
+			}
 			ft, fr := runBody(s)
 			return continues(ft, fr)
 		})
 		// drop the loop's own variables from the modified set
 		mods.vars = dropObjs(mods.vars, keyObj, valObj)
+		if ls.Index != "" {
+			var gs []string
+			for _, g := range mods.ghost {
+				if g != ls.Index {
+					gs = append(gs, g)
+				}
+			}
+			mods.ghost = gs
+		}
 		// invariant on entry: index 0
 		init := st.clone()
 		bindIter(init, "0")
@@ -991,6 +1003,9 @@ func (u *Unit) execRange(st *State, x *ast.RangeStmt) *State {
 		body := head.clone()
 		body.assume(app("<", k, length))
 		bindIter(body, k)
+		if ls.Index != "" {
+			body.ghost[ls.Index] = Val{T: k, Ty: intT, So: "Int"}
+		}
 		ft, fr := runBody(body)
 		if arms := continues(ft, fr); len(arms) > 0 {
 			j, _ := u.joinN(body, arms, nil)
